@@ -65,6 +65,21 @@ def run(ch, build):
         b = gen_repo(rng, rng.choice([1, 2, 3, 5]), first_zero=rng.random() < 0.5)
         inj.append((a, b))
         bodies += [r["body"] for rp in (a, b) for r in rp if r["type"] == 0x01]
+    # related states: the later repository keeps the records the walk is in the middle of (same IDs, same order) but has
+    # lost earlier ones and gained later ones - a walk that resumes instead of restarting returns a set no state ever held
+    for k in range(6 if ch.quick() else 60):
+        a = gen_repo(rng, rng.choice([4, 5, 6]), first_zero=False)
+        for r in a[:2]:
+            if r["type"] != 0x01:      # make sure something already collected can disappear
+                r2 = gen_repo(rng, 1)[0]
+                while r2["type"] != 0x01:
+                    r2 = gen_repo(rng, 1)[0]
+                data = bytes([r["id"] & 255, r["id"] >> 8, 0x51, 0x01, len(bytes.fromhex(r2["body"]))]) + bytes.fromhex(r2["body"])
+                r.update(type=0x01, body=r2["body"], data=data.hex())
+        extra = gen_repo(rng, 2)
+        b = [dict(r) for r in a[rng.choice([1, 2]):]] + [r for r in extra if r["id"] not in [x["id"] for x in a] and r["id"] != 0]
+        inj.append((a, b))
+        bodies += [r["body"] for rp in (a, b) for r in rp if r["type"] == 0x01]
     bodies = sorted(set(bodies))
     decs = core.oracle(["dec fsr _ %s" % b for b in bodies])
     dec = {}
@@ -87,12 +102,14 @@ def run(ch, build):
         nreq = len(po["steps"][1]["sent"])
         points = range(nreq) if not ch.quick() else sorted(set([0, 1, 2, nreq - 1] + rng.sample(range(nreq), min(nreq, 2))))
         for at in points:
-            for kind in ("modify_add", "modify_erase", "cancel_reservation"):
-                if ch.quick() and kind != "modify_add" and (at + k) % 3:
+            for kind in ("modify_add", "modify_erase", "cancel_reservation", "modify_same_second"):
+                if ch.quick() and kind not in ("modify_add", "modify_same_second") and (at + k) % 3:
                     continue
                 ev = {"before": at, "kind": "modify_sdr" if kind.startswith("modify") else "cancel_reservation",
                       "sdrs": [{"id": r["id"], "data": r["data"]} for r in b],
                       "addition": 1001 if kind == "modify_add" else 1000, "erase": 901 if kind == "modify_erase" else 900}
+                # modify_same_second: the content changes and the reservation is cancelled, but both timestamps (one-second
+                # resolution) stay: only the lost reservation tells; whatever is returned must still be ONE state
                 s = dict(probe[k]); s = {"bmc": probe[k]["bmc"], "timeout_ms": 40,
                                         "steps": [probe[k]["steps"][0], {"op": "sdr", "conn": "session", "ctx_ms": 12000, "events": [ev]}]}
                 scns.append(s); meta.append((kind, a, (b, at, nreq)))
@@ -116,6 +133,8 @@ def run(ch, build):
             allowed = {new} if kind.startswith("modify") else {old}
             if kind == "cancel_reservation":
                 allowed = {old}
+            if kind == "modify_same_second":
+                allowed = {old, new}    # no client can tell after the last reservation-checked request; never a mixture
             if res["err"] != "nil":
                 continue      # an error is acceptable
             if impl not in allowed:
